@@ -422,8 +422,14 @@ func runC08(in, out string, seed int64, workers, kwv, grpcN, fuzzN int, scratch 
 
 // judgeSyn: CreateSubscription / UpdateSubscription(filter) answer OK iff the
 // string is a sentence; a rejected string is never stored.
-func judgeSyn(res *result, s string, acc int, mode string, r grpcResult) {
+// plain (optional): the result for the same token string with ordinary string
+// contents; an over-acceptance counts as "quoted string taken as keyword" only
+// when that plain rendering was rejected by the same call.
+func judgeSyn(res *result, s string, acc int, mode string, r grpcResult, plain *grpcResult, plainS string) {
 	rp := map[string]any{"kind": "grpc-job", "job": grpcJob{Kind: "syn", ID: 0, S: s}, "acc": acc}
+	if plain != nil {
+		rp["plain"] = plainS
+	}
 	for _, call := range []struct {
 		name string
 		code string
@@ -436,8 +442,14 @@ func judgeSyn(res *result, s string, acc int, mode string, r grpcResult) {
 		ok := call.code == "OK"
 		if ok && acc == 0 {
 			d := "nonsentence-accepted"
-			if strings.HasPrefix(mode, "kw:") {
-				d = "quoted-string-taken-as-keyword"
+			if strings.HasPrefix(mode, "kw:") && plain != nil {
+				pc := plain.Create
+				if call.name == "UpdateSubscription" {
+					pc = plain.Update
+				}
+				if pc != "OK" {
+					d = "quoted-string-taken-as-keyword"
+				}
 			}
 			res.add(violation{Clause: "C08:accept", Detail: d, Msg: fmt.Sprintf("%s accepted a filter that is not a sentence of the grammar: %s", call.name, s), Replay: rp})
 		}
@@ -464,12 +476,20 @@ func (c *c08ctx) runSynGrpc(scratch string, workers int) error {
 	sort.Slice(picks, func(i, j int) bool { return picks[i].prio < picks[j].prio })
 	var jobs []grpcJob
 	var used []synPick
+	plainOf := map[int]int{}
 	for _, p := range picks {
 		if p.s == "" || !utf8.ValidString(p.s) {
 			continue
 		}
-		jobs = append(jobs, grpcJob{Kind: "syn", ID: len(jobs), S: p.s})
+		id := len(jobs)
+		jobs = append(jobs, grpcJob{Kind: "syn", ID: id, S: p.s})
 		used = append(used, p)
+		if p.acc == 0 && strings.HasPrefix(p.mode, "kw:") {
+			plain := joinToks(lexTokens(p.kinds, "canon", nil), 0, nil)
+			plainOf[id] = len(jobs)
+			jobs = append(jobs, grpcJob{Kind: "syn", ID: len(jobs), S: plain})
+			used = append(used, synPick{kinds: p.kinds, acc: 0, s: plain, mode: "canon"})
+		}
 	}
 	results, crashed, err := runGrpcJobs(jobs, scratch, workers)
 	if err != nil {
@@ -484,7 +504,17 @@ func (c *c08ctx) runSynGrpc(scratch string, workers int) error {
 		if r.Err != "" {
 			return fmt.Errorf("gRPC slice, job %d (%q): %s", r.ID, p.s, r.Err)
 		}
-		judgeSyn(c.res, p.s, p.acc, p.mode, r)
+		var plain *grpcResult
+		plainS := ""
+		if pid, ok := plainOf[r.ID]; ok {
+			plainS = used[pid].s
+			for i := range results {
+				if results[i].ID == pid {
+					plain = &results[i]
+				}
+			}
+		}
+		judgeSyn(c.res, p.s, p.acc, p.mode, r, plain, plainS)
 		c.res.count("grpc_strings", 1)
 		if p.acc == 1 {
 			c.res.count("grpc_strings_accepted", 1)
